@@ -18,7 +18,9 @@ fn main() {
         "cfg_offsets" => cfg_offsets(&input),
         "parse_program" => parse_program(&input),
         "instruction_views" => instruction_views(&input),
-        "used_qubits" => used_qubits(&input),
+        "used_qubits" => used_qubits(&input, true),
+        // (without clone_without_body_instructions, whose defect is a known finding: used to look for witnesses of OTHER violations)
+        "used_qubits_other_ops" => used_qubits(&input, false),
         "serialize_repeat" => serialize_repeat(&input),
         "literal_exact" => literal_exact(&input),
         "name_spelling" => name_spelling(&input),
@@ -26,6 +28,7 @@ fn main() {
         "frame_match" => frame_match(&input),
         "expand_terminates" => expand_terminates(&input),
         "source_map_tiles" => source_map_tiles(&input),
+        "nested_map_tiles" => nested_map_tiles(&input),
         other => {
             eprintln!("unknown replay kind {other}");
             std::process::exit(64);
@@ -100,9 +103,9 @@ fn instruction_views(text: &str) -> Result<(), String> {
 }
 
 /// C10: the used-qubit set equals the qubits mentioned by the instruction listing, after each operation
-fn used_qubits(text: &str) -> Result<(), String> {
+fn used_qubits(text: &str, with_clone_without_body: bool) -> Result<(), String> {
     use std::collections::HashSet;
-    let program = Program::from_str(text).map_err(|e| format!("input does not parse: {e}"))?;
+    let program = Program::from_str(&text.replace("\n=====\n", "\n")).map_err(|e| format!("input does not parse: {e}"))?;
     let check = |what: &str, p: &Program| -> Result<(), String> {
         let mentioned: HashSet<quil_rs::instruction::Qubit> =
             p.to_instructions().iter().flat_map(|i| i.get_qubits().into_iter().cloned()).collect();
@@ -116,8 +119,21 @@ fn used_qubits(text: &str) -> Result<(), String> {
         }
         Ok(())
     };
+    // `=====` on a line of its own separates two programs: the property is then checked for their sum as well
+    if let Some((a, b)) = text.split_once("\n=====\n") {
+        let pa = Program::from_str(a).map_err(|e| format!("first program does not parse: {e}"))?;
+        let pb = Program::from_str(b).map_err(|e| format!("second program does not parse: {e}"))?;
+        check("first", &pa)?;
+        check("second", &pb)?;
+        let mut sum = pa.clone();
+        sum += pb.clone();
+        check("first += second", &sum)?;
+        return check("first + second", &(pa + pb));
+    }
     check("parsed", &program)?;
-    check("clone_without_body_instructions", &program.clone_without_body_instructions())?;
+    if with_clone_without_body {
+        check("clone_without_body_instructions", &program.clone_without_body_instructions())?;
+    }
     check("program + program", &(program.clone() + program.clone()))?;
     if let Ok(expanded) = program.expand_calibrations() {
         check("expand_calibrations", &expanded)?;
@@ -399,6 +415,55 @@ fn source_map_tiles(text: &str) -> Result<(), String> {
     }
     if next_target != target.len() {
         return Err(format!("the entries cover {next_target} target instructions but the output body has {}", target.len()));
+    }
+    Ok(())
+}
+
+/// C19 (nested part): inside every rewritten entry, the nested records are relative to the parent range and tile it
+fn nested_map_tiles(text: &str) -> Result<(), String> {
+    use quil_rs::program::{CalibrationExpansion, ExpansionResult};
+    let program = Program::from_str(text).map_err(|e| format!("input does not parse: {e}"))?;
+    let (expanded, map) = program.expand_calibrations_with_source_map().map_err(|e| format!("expansion failed: {e}"))?;
+    println!("expanded body:");
+    for (k, i) in expanded.body_instructions().enumerate() {
+        println!("  {k}: {}", quil_rs::quil::Quil::to_quil_or_debug(i));
+    }
+    fn check(x: &CalibrationExpansion, depth: usize) -> Result<(), String> {
+        let len = x.range().end.0 - x.range().start.0;
+        println!("{}expansion of {:?} covers {}..{}", "  ".repeat(depth), x.calibration_used(), x.range().start.0, x.range().end.0);
+        let mut next = 0usize;
+        for entry in x.expansions().entries() {
+            match entry.target_location() {
+                ExpansionResult::Unmodified(t) => {
+                    println!("{}  source {} -> unmodified {}", "  ".repeat(depth), entry.source_location().0, t.0);
+                    if t.0 != next {
+                        return Err(format!("nested unmodified entry points to {} but the next uncovered index of its parent is {next}", t.0));
+                    }
+                    next += 1;
+                }
+                ExpansionResult::Rewritten(inner) => {
+                    println!("{}  source {} -> rewritten {}..{}", "  ".repeat(depth), entry.source_location().0, inner.range().start.0, inner.range().end.0);
+                    if inner.range().start.0 != next {
+                        return Err(format!(
+                            "nested rewritten entry covers {}..{} (relative to its parent) but the next uncovered index of the parent is {next}",
+                            inner.range().start.0,
+                            inner.range().end.0
+                        ));
+                    }
+                    next = inner.range().end.0;
+                    check(inner, depth + 1)?;
+                }
+            }
+        }
+        if !x.expansions().entries().is_empty() && next != len {
+            return Err(format!("nested entries cover {next} instructions but the parent range has {len}"));
+        }
+        Ok(())
+    }
+    for entry in map.entries() {
+        if let ExpansionResult::Rewritten(x) = entry.target_location() {
+            check(x, 0)?;
+        }
     }
     Ok(())
 }
